@@ -215,7 +215,9 @@ def sym_param(pv, p):
 def build_tdm(spec):
     N = spec["N"]
     prog = sf.TDMProgram(N=list(N) if len(N) > 1 else N[0])
-    with prog.context(*[list(a) for a in spec["arrays"]], shift=spec["shift"]) as (p, q):
+    # the default is taken through the default argument (not passed explicitly), as users do
+    ctx_kw = {} if spec["shift"] == "default" else {"shift": spec["shift"]}
+    with prog.context(*[list(a) for a in spec["arrays"]], **ctx_kw) as (p, q):
         for name, params, regs, fl in spec["cmds"]:
             kw = {}
             if fl.get("sel") is not None:
@@ -924,7 +926,7 @@ def corr_delays(ctx):
 def gen_gate_args(rng, padded_shape=False):
     nloops = rng.randint(1, 3)
     delays = [rng.randint(1, 5) for _ in range(nloops)]
-    L = rng.randint(1, 6)
+    L = rng.randint(1, 6) if not padded_shape else rng.randint(3, 12)
     def bs_list():
         u = rng.random()
         if u < 0.15:
@@ -934,7 +936,10 @@ def gen_gate_args(rng, padded_shape=False):
         if not padded_shape and rng.random() < 0.3 and tail:
             tail[rng.randrange(len(tail))] = 0
         return [0] * z + tail
-    loops = {i: {"Rgate": [round(rng.uniform(-3, 3), 3) if rng.random() < 0.8 else 0 for _ in range(L)], "BSgate": bs_list()} for i in range(nloops)}
+    order = list(range(nloops))
+    if rng.random() < 0.4:
+        rng.shuffle(order)          # dict insertion order need not be the loop order
+    loops = {i: {"Rgate": [round(rng.uniform(-3, 3), 3) if rng.random() < 0.8 else 0 for _ in range(L)], "BSgate": bs_list()} for i in order}
     sg = [rng.choice([0.3, 0.5, -0.4, 0.25]) for _ in range(L)]
     if not padded_shape and rng.random() < 0.1:
         sg = 0.4        # a single number: documented to be left alone
@@ -1004,7 +1009,10 @@ def vacpad_check(ga, delays):
     def prefix_zero(a):
         z = next((i for i, v in enumerate(a) if v != 0), len(a))
         return all(v != 0 for v in a[z:])
-    if all(prefix_zero(ga["loops"][i]["BSgate"]) for i in ga["loops"]) and all(v != 0 for v in ga["Sgate"]):
+    zs = [next((k for k, v in enumerate(ga["loops"][i]["BSgate"]) if v != 0), 0) for i in ga["loops"]]
+    # (lists long enough that every loop is still fed when the next one starts coupling)
+    if (all(prefix_zero(ga["loops"][i]["BSgate"]) for i in ga["loops"]) and all(v != 0 for v in ga["Sgate"])
+            and crop + max(zs + [0]) <= L - 1):
         fl = first_light(spec)
         T = L + crop
         if fl != min(crop, T):
@@ -1118,13 +1126,15 @@ def crop_check(ctx, spec, inj, space):
         return all(v != 0 for v in a[z:])
     bsc = [x for x in spec["cmds"] if x[0] == "BSgate"]
     if (len(spec["N"]) == 1 and all(x[0] in ("Sgate", "BSgate", "Rgate", "MeasureHomodyne") for x in spec["cmds"])
-            and all(_prefix_zero(a) for a in spec["arrays"])):
+            and all(_prefix_zero(a) for a in spec["arrays"])
+            # ... and long enough: every loop must still be fed when the next one starts coupling
+            and c + max([next((i for i, v in enumerate(a) if v != 0), 0) for a in spec["arrays"]] + [0]) <= T - 1):
         try:
             fl = first_light(spec)
         except Exception:
             fl = None
         if fl is not None and min(c, T) != fl:
-            const_bs = any(not any(isinstance(v, dict) for v in x[1]) for x in bsc)
+            const_bs = any(not isinstance(x[1][0], dict) for x in bsc)     # transmittivity angle is a constant
             found.append(("crop:first-light%s" % (":constant-beamsplitter" if const_bs else ""),
                           "get_crop_value() = %d but the first non-vacuum pulse reaches the detector in time bin %d (of %d)" % (c, fl, T)))
             return found
@@ -1679,8 +1689,16 @@ def search(ctx):
 
 def search_crop(ctx):
     rng = ctx.rng
-    for _ in range(ctx.budget(16, 160)):
-        spec, nloops = gen_loop_spec(rng, meas="MeasureHomodyne", max_T=6)
+    for k in range(ctx.budget(16, 160)):
+        for _try in range(10):
+            spec, nloops = gen_loop_spec(rng, meas="MeasureHomodyne", max_T=6)
+            if k % 2:
+                break
+            try:
+                if 0 < build_tdm(spec).get_crop_value() < len(spec["arrays"][0]):
+                    break          # every other case: a crop value that is visible
+            except NotImplementedError:
+                pass
         space = rng.random() < 0.5
         inj = inj_values(rng)
         data = {"check": "crop", "spec": spec, "inj": inj, "space": space}
@@ -1805,8 +1823,16 @@ def search_run_matrix(ctx):
         # time bins <= concurrent modes for every other program: space-unrolled runs with measurements then survive reshape_samples
         loopy = i % 3 == 2
         if loopy:
-            # delay-loop layout (Sgate / BSgate / homodyne only): the only programs for which crop has a meaning
-            spec, _ = gen_loop_spec(rng, meas="MeasureHomodyne", max_T=5)
+            # delay-loop layout (Sgate / BSgate / homodyne only): the only programs for which crop has a meaning;
+            # prefer programs whose crop value is neither 0 nor all time bins, so that cropping is visible
+            for _try in range(30):
+                spec, _ = gen_loop_spec(rng, meas="MeasureHomodyne", max_T=5)
+                try:
+                    cv = build_tdm(spec).get_crop_value()
+                except NotImplementedError:
+                    continue
+                if 0 < cv < len(spec["arrays"][0]):
+                    break
         else:
             spec = gen_spec(rng, physical=True, wellformed=True, allow_flags=False, allow_expr=False, shift_kinds=("default",),
                             single_band=True, max_N=3, max_T=4, names=PRIMITIVE * 3 + ["S2gate", "MZgate"])
